@@ -1,28 +1,44 @@
 (* ====================================================================== *)
-(*  Lap_Spec.v — what property C09 says about Laplacian Eigenmaps          *)
+(*  Lap_Spec.v — what property C09 says about Laplacian Eigenmaps and      *)
+(*  Diffusion Map (the mathematical objects; no reference to the code)     *)
 (*                                                                         *)
-(*  "L = D - W, W holds the heat-kernel weights exp(-d^2/width) on         *)
-(*   neighbour pairs made symmetric and D is its degree matrix,            *)
-(*   [Y] generalised eigenvectors of L y = lambda D y belonging to the     *)
-(*   target_dimension smallest non-zero eigenvalues, normalised so that    *)
-(*   Y^T D Y = I and Y^T D 1 = 0."                                         *)
-(*                                                                         *)
-(*  The mathematical objects (any field F, any sizes):                     *)
+(*  Laplacian Eigenmaps:  L = D - W, W holds the heat-kernel weights       *)
+(*  exp(-d^2/width) on neighbour pairs made symmetric, D is its degree     *)
+(*  matrix; Y generalised eigenvectors of L y = lambda D y belonging to    *)
+(*  the target_dimension smallest non-zero eigenvalues, normalised so that *)
+(*  Y^T D Y = I and Y^T D 1 = 0.                                           *)
 (*    adjA heat k nbrs i j   heat i j for every occurrence of j among the  *)
 (*                           first k entries of N(i)  (directed weights)   *)
-(*    matW = A + A^T         "made symmetric": the SUM of the two          *)
-(*                           directions (what is symmetric and built from  *)
-(*                           heat weights on neighbour pairs; the doc      *)
-(*                           comment in the source says max — see notes)   *)
+(*    matW = A + A^T         made symmetric: the SUM of the two directions *)
+(*                           (the doc comment in the source says max; the  *)
+(*                           property only says symmetric — DESIGN sec. 7) *)
 (*    degD = W 1             degree vector,   matL = diag(degD) - W        *)
 (*    gen_contract           the generalised-eigen ORACLE contract:        *)
 (*                           A V = B V Lambda, V^T B V = I                 *)
-(*  Boolean decision procedures (for exact instances, e.g. Qc):            *)
-(*    lap_matrix_b eqb n heat nbrs L D   checks L = matL and D = degD      *)
+(*    le_spec                what the property asks of the embedding Y     *)
+(*  Diffusion Map: the diffusion operator obtained by normalising the      *)
+(*  Gaussian kernel K:  p = K 1, K1 = P^-1 K P^-1, q = K1 1,               *)
+(*    dm_markov  T = Q^-1 K1          (row-stochastic diffusion operator)  *)
+(*    dm_sym     M = S^-1 K1 S^-1     with s_i * s_i = q_i (its symmetric  *)
+(*                                    conjugate, S T S^-1)                 *)
+(*    fpow x t   x^t by repeated multiplication                            *)
+(*    dm_spec    coordinates lambda_i^t * psi_i(x) / psi_0(x)              *)
+(*  Boolean decision procedures (exact instances, e.g. Qc):                *)
+(*    lap_matrix_b eqb n L D   checks L = matL and D = degD                *)
+(*    dm_matrix_b eqb n M s    checks M = dm_sym for the oracle values s   *)
 (* ====================================================================== *)
 Require Import Arith List Bool.
 From TK Require Import Mat_Sums Mat_Core.
 Import ListNotations.
+
+Section MatEqb.
+  Context {F : Type} {Fo : FieldOps F}.
+  Variable eqb : F -> F -> bool.
+  Definition vec_eqb (n : nat) (x y : vec F) : bool :=
+    forallb (fun i => eqb (x i) (y i)) (seq 0 n).
+  Definition mat_eqb (n m : nat) (A B : mat F) : bool :=
+    forallb (fun i => forallb (fun j => eqb (A i j) (B i j)) (seq 0 m)) (seq 0 n).
+End MatEqb.
 
 Section LapSpec.
   Context {F : Type} {Fo : FieldOps F}.
@@ -32,7 +48,7 @@ Section LapSpec.
   Variable k : nat.                       (* number of neighbours used per sample *)
   Variable nbrs : list (list nat).        (* neighbour lists *)
 
-  Definition nb_at (i p : nat) : nat := nth p (nth i nbrs []) 0.
+  Definition nb_at (i p : nat) : nat := nth p (nth i nbrs []) 0%nat.
 
   Definition adjA (i j : nat) : F :=
     sumn k (fun p => if Nat.eqb (nb_at i p) j then heat i j else 0).
@@ -45,13 +61,9 @@ Section LapSpec.
 
   (* decision procedure on list data (eqb: exact equality of the instance) *)
   Variable eqb : F -> F -> bool.
-  Definition vec_eqb (n : nat) (x y : vec F) : bool :=
-    forallb (fun i => eqb (x i) (y i)) (seq 0 n).
-  Definition mat_eqb (n m : nat) (A B : mat F) : bool :=
-    forallb (fun i => forallb (fun j => eqb (A i j) (B i j)) (seq 0 m)) (seq 0 n).
   Definition lap_matrix_b (n : nat) (L : list (list F)) (D : list F) : bool :=
     wf_matb n n L && Nat.eqb (length D) n &&
-    mat_eqb n n (mof L) (matL n) && vec_eqb n (vof D) (degD n).
+    mat_eqb eqb n n (mof L) (matL n) && vec_eqb eqb n (vof D) (degD n).
 End LapSpec.
 
 Section GenEigSpec.
@@ -60,7 +72,8 @@ Section GenEigSpec.
 
   (* Contract of the dense generalised self-adjoint solver
      (Eigen::GeneralizedSelfAdjointEigenSolver, ABx_lx): all N pairs, A V = B V diag(lam),
-     V^T B V = I.  "Ascending" needs an order and is stated separately where it is used. *)
+     V^T B V = I.  Ascending order needs an order on F and is not part of the contract used
+     by the theorems (see Properties_C09: the _partial theorems say what that leaves open). *)
   Definition gen_contract (N : nat) (A B V : mat F) (lam : vec F) : Prop :=
     meq N N (mmul N A V) (mmul N B (mmul N V (mdiag lam))) /\
     meq N N (mmul N (mtrans V) (mmul N B V)) mI.
@@ -68,4 +81,49 @@ Section GenEigSpec.
   (* y is a generalised eigenvector: A y = l B y *)
   Definition gen_eigvec (N : nat) (A B : mat F) (l : F) (y : vec F) : Prop :=
     veq N (mv N A y) (vscale l (mv N B y)).
+
+  (* what the property asks of the N x d embedding Y (columns y_c with eigenvalues mu c) *)
+  Definition le_spec (N d : nat) (L Dm Y : mat F) (mu : vec F) : Prop :=
+    (forall c, c < d -> gen_eigvec N L Dm (mu c) (mcol Y c)) /\
+    meq d d (mmul N (mtrans Y) (mmul N Dm Y)) mI /\
+    (forall c, c < d -> dot N (mcol Y c) (mv N Dm (fun _ => 1)) = 0).
+
+  (* Contract of the dense self-adjoint solver: M V = V diag(lam), V^T V = I *)
+  Definition sym_contract (N : nat) (M V : mat F) (lam : vec F) : Prop :=
+    meq N N (mmul N M V) (mmul N V (mdiag lam)) /\
+    meq N N (mmul N (mtrans V) V) mI.
+
+  Definition eigvec (N : nat) (M : mat F) (l : F) (y : vec F) : Prop :=
+    veq N (mv N M y) (vscale l y).
 End GenEigSpec.
+
+Section DmSpec.
+  Context {F : Type} {Fo : FieldOps F}.
+  Local Open Scope F_scope.
+
+  Fixpoint fpow (x : F) (t : nat) : F :=
+    match t with O => 1 | S t' => x * fpow x t' end.
+
+  Variable K : mat F.            (* Gaussian kernel, K i j = exp(-d(i,j)^2 / width), symmetric *)
+  Variable n : nat.
+
+  Definition vinv (v : vec F) : vec F := fun i => / v i.
+
+  Definition dm_P : vec F := fun i => rowsum n K i.                          (* p = K 1 *)
+  Definition dm_K1 : mat F :=                                               (* P^-1 K P^-1 *)
+    mmul n (mdiag (vinv dm_P)) (mmul n K (mdiag (vinv dm_P))).
+  Definition dm_Q : vec F := fun i => rowsum n dm_K1 i.                      (* q = K1 1 *)
+  Definition dm_markov : mat F := mmul n (mdiag (vinv dm_Q)) dm_K1.          (* T = Q^-1 K1 *)
+  (* s: the square roots of q (value oracle: s i * s i = dm_Q i) *)
+  Definition dm_sym (s : vec F) : mat F :=                                  (* S^-1 K1 S^-1 *)
+    mmul n (mdiag (vinv s)) (mmul n dm_K1 (mdiag (vinv s))).
+
+  (* the coordinates the property names: column c = lam_c^t * psi_c / psi_0 *)
+  Definition dm_spec (d t : nat) (psi : mat F) (lam : vec F) (psi0 : vec F) : mat F :=
+    fun x c => fpow (lam c) t * psi x c / psi0 x.
+
+  Variable eqb : F -> F -> bool.
+  Definition dm_matrix_b (M : list (list F)) (s : list F) : bool :=
+    wf_matb n n M && Nat.eqb (length s) n &&
+    mat_eqb eqb n n (mof M) (dm_sym (vof s)).
+End DmSpec.
